@@ -154,16 +154,17 @@ PROPS["C06"] = {
     "quick": {"shards": 8, "budget_s": 15},
     "thorough": {"shards": 16, "budget_s": 240, "release_pass": {"shards": 16, "budget_s": 60}},
     "floor": {"quick": 1000, "thorough": 20000},
-    "require_counters": {"quick": {"cycles_compared": 50000, "cycles_with_two_or_more_due_tasks": 5000, "overrun_events_compared": 5000},
+    "require_counters": {"quick": {"cycles_compared": 50000, "cycles_with_two_or_more_due_tasks": 5000, "overrun_events_compared": 5000, "timelines_with_a_restart": 300},
                          "thorough": {"cycles_compared": 2000000, "evaluations_under_release_semantics": 1000}},
     "rule": "case = configuration (1-6 tasks: INTERVAL in {0,1,3,4,10 ms} incl. equal pairs, or SINGLE on one of 1-2 shared BOOL globals incl. initially TRUE, "
             "PRIORITY 0-2 with duplicates; 1-6 program instances attached to tasks or left as background; 0-2 FB instances associated with a task through "
-            "register_task) x timeline of 20-80 cycles with dt in {0,1ns,1ms,I-1,I,I+1,2.5I,7I,...}, SINGLE edges written externally and by program bodies. "
+            "register_task) x timeline of 20-80 cycles with dt in {0,1ns,1ms,I-1,I,I+1,2.5I,7I,...}, SINGLE edges written externally and by program bodies; a third of the timelines "
+            "without API-registered FB tasks contain one warm or cold restart, after which the model starts again from its start-up state (clock 0). "
             "distinct = (task-set shape, timeline length class, overrun class); non-trivial = >=2 tasks due in one cycle at least once, or an overrun occurred",
     "level_text": "Every cycle's executed unit sequence (programs and task-associated FBs, reconstructed from a global sequence counter the bodies write), "
                   "TaskStart/TaskEnd/TaskOverrun events and task_overrun_count are compared with a model written from the property statement: due set, "
                   "priority / due-time / declaration-order tie-breaks, at most once per cycle, background programs last, missed activations counted not replayed.",
-    "level_note": "Tasks have either INTERVAL>0 or SINGLE, never both (the statement leaves 'last activation' open for the combination). SINGLE is sampled once per "
+    "level_note": "Whether task_overrun_count survives a restart is not part of the task model: the model continues from the value the runtime shows after the restart. Tasks have either INTERVAL>0 or SINGLE, never both (the statement leaves 'last activation' open for the combination). SINGLE is sampled once per "
                   "cycle after the input latch in model and code.",
     "assumptions": ["runtime clock starts at 0 and task timers start at registration time"],
     "design_ref": "DESIGN.md section 8 (as built; plan in section 3), C06",
@@ -223,7 +224,9 @@ _GEN_RULE = ("programs: (a) systematic single-feature cells - every binary opera
              "reals 0, +-1, near-max, tiny; sampled in quick, complete in thorough), unary minus, FOR over every integer control type at the type limits incl. step 0, CASE on every integer "
              "selector type, assignment / array element / struct field / function parameter / return / FB input / FB output for every (declared type, assignable source type) pair, and "
              "13 feature-switch cells (EN/ENO calls from program, function and FB bodies, case variation, untyped literals, RETURN in PROGRAM, fb() without arguments, subrange overflow, enum CASE, negative exponent, recursion, TIME, bit "
-             "ops, strings); (b) every .st file under /repo that builds stand-alone; (c) seeded type-directed random programs (<= 3 functions, <= 3 FB types with state, arrays, structs, "
+             "ops, strings), the standard functions at their boundaries (every <X>_TO_<Y> conversion at the limits of X and with an argument of a narrower type, SHL/SHR/ROL/ROR by 0, 1, width-1, width, more and -1, "
+             "LEFT/RIGHT/MID/INSERT/DELETE/REPLACE with lengths and positions 0, 1, len, len+1, type maxima and -1, numeric functions outside their domain), JMP in every relation between jump and label "
+             "(same list, out of IF / CASE / FOR / WHILE, backwards, into a nested list, endless) and faults raised while a callee's locals are initialised; (b) every .st file under /repo that builds stand-alone; (c) seeded type-directed random programs (<= 3 functions, <= 3 FB types with state, arrays, structs, "
              "IF/CASE/FOR/WHILE/REPEAT/EXIT/CONTINUE/RETURN, short-circuit guard patterns, FOR bounds over variables the body changes, loops ending at the type limit, direct widening "
              "assignments; typed literals and exact-case identifiers unless a feature switch says otherwise), 3-5 cycles with boundary-biased inputs and clock steps. distinct = (feature "
              "set, program hash bucket, final outcome); non-trivial = the compiler accepted the program and >= 1 statement executed (hook H1)")
@@ -252,7 +255,7 @@ PROPS["C02"] = {
     "quick": {"shards": 8, "budget_s": 30, "watchdog_s": 900},
     "thorough": {"shards": 16, "budget_s": 420, "watchdog_s": 3600, "release_pass": {"shards": 16, "budget_s": 90}},
     "floor": {"quick": 5000, "thorough": 50000},
-    "require_counters": {"quick": {"variables_compared": 1000000, "faults_agreed": 3000, "cycles_compared": 20000, "semantic_cells_checked": 12, "semantic_cell_values_compared": 72}, "thorough": {"variables_compared": 20000000, "evaluations_under_release_semantics": 5000}},
+    "require_counters": {"quick": {"variables_compared": 1000000, "faults_agreed": 3000, "cycles_compared": 20000, "semantic_cells_checked": 14, "semantic_cell_values_compared": 80}, "thorough": {"variables_compared": 20000000, "evaluations_under_release_semantics": 5000}},
     "rule": "seeded type-directed random programs of the C02 core grammar (see DESIGN C02): elementary-type expressions over one signedness family per operation, assignments incl. implicit "
             "widening, IF/CASE/FOR/WHILE/REPEAT/EXIT/CONTINUE/RETURN, arrays, structs, user functions (positional and named calls), FB instances with state and omitted inputs, "
             "short-circuit guard patterns, FOR bounds evaluated once, loops ending at the type limit; 3-5 cycles of boundary-biased inputs. distinct = (feature set, program hash bucket, "
@@ -262,8 +265,8 @@ PROPS["C02"] = {
                   "before each iteration, by-value inputs, persistent FB state. After every cycle every Main variable, array element, struct field and FB member is compared by declared type "
                   "(numeric value / bit pattern), and the fault class must agree.",
     "level_note": "Excluded from the generated C02 grammar (still run by C01): mixed signedness, conversions and standard functions, untyped literals, TIME arithmetic, strings. '**', "
-                  "operator precedence/associativity, VAR_IN_OUT (plain, through array elements / struct fields / nested FBs, and aliased), by-value inputs, default values of omitted inputs, initial values of FB inputs/outputs, EN/ENO gating of functions and FBs (also from nested callers) and output bindings (to variables, array elements, struct fields) are covered by 12 "
-                  "hand-derived semantic cells (harness/src/engines/c02cells.rs, 72 expected values worked out from IEC Table 71 and the by-reference rule) that run in every tier.",
+                  "operator precedence/associativity, VAR_IN_OUT (plain, through array elements / struct fields / nested FBs, and aliased), by-value inputs, default values of omitted inputs, initial values of FB inputs/outputs, EN/ENO gating of functions and FBs (also from nested callers) and output bindings (to variables, array elements, struct fields) are covered by 13 "
+                  "hand-derived semantic cells (harness/src/engines/c02cells.rs, 80 expected values worked out from IEC Table 71 and the by-reference rule) that run in every tier.",
     "assumptions": ["the reference evaluator is the trusted base", "value of a FOR control variable after the loop is not compared (re-assigned by the generated program)"],
     "design_ref": "DESIGN.md section 8 (as built; plan in section 3), C02",
 }
